@@ -8,7 +8,8 @@ of every goroutine involved:
 * the `ServeBackName` goroutine of the endpoint (`SB`),
 * the `go old.Close()` goroutine started when a newer endpoint kicks this one (`KC`),
 * `ServeFront` with its wait group (`SF`),
-* per front connection: the `hostConn` goroutine (`HS`), the two copy goroutines of
+* per front connection: the `hostConn` goroutine (`HS`; in side mode including the wait
+  of `endpointClient.Dial` for the side websocket, `connMailBox.receive`), the two copy goroutines of
   `JoinConn` (`Up`: front → tunnel, `Down`: tunnel → front), and the `closeAll`
   once (`CA`), which first closes the tunnel (an RPC with a context that is never
   cancelled) and then the front connection.
@@ -41,9 +42,12 @@ structure Facts where
   shutdownHasTimeout : Bool
   /-- `ServeBackName` reports the disconnect (deferred) -/
   reportsDisconnect : Bool
+  /-- side mode: `endpointClient.Dial` waits for the side connection in
+      `connMailBox.receive`, which also selects on the transport's `serveDone` -/
+  sideDialSelectsGone : Bool
   deriving DecidableEq, Repr
 
-def Facts.good : Facts := ⟨true, true, true, true, true, true, true⟩
+def Facts.good : Facts := ⟨true, true, true, true, true, true, true, true⟩
 
 inductive HS
   | notYet          -- the client has not connected yet
@@ -53,6 +57,8 @@ inductive HS
   | closingTunnel   -- `JoinConn` returned; deferred `closer.Close()` (an RPC), then `conn.Close()`
   | done            -- `hostConn` returned
   | elsewhere       -- routed to the newer endpoint that took the name (outside this model)
+  | sideWait        -- side mode: the endpoint answered the dial call; `ep.Dial` waits in
+                    -- `connMailBox.receive` for the side websocket to be delivered
   deriving DecidableEq, Repr
 
 inductive Up
@@ -128,6 +134,7 @@ inductive FEv
   | downReadOk | downReadEof | downReadErr | downWriteDone
   | cancelSeen | caStart | caTunnelOk | caTunnelErr
   | upExit | downExit | joinReturn | finishOk | finishErr
+  | dialSideOk | sideArrive | sideGone | sideCancel
   deriving DecidableEq, Repr
 
 /-- a copy goroutine leaves its loop -/
@@ -191,6 +198,14 @@ def frontStep (F : Facts) (c : Ctx) (f : Front) : FEv → Option Front
     if f.hs = .joined ∧ f.up = .exited ∧ f.down = .exited then some { f with hs := .closingTunnel } else none
   | .finishOk => if f.hs = .closingTunnel ∧ okPossible c f then some (hostReturn F (useOk c f)) else none
   | .finishErr => if f.hs = .closingTunnel ∧ c.trDone then some (hostReturn F f) else none
+  -- side mode.  The dial call is answered ("the side connection is on its way") …
+  | .dialSideOk => if f.hs = .dialing ∧ okPossible c f then some { useOk c f with hs := .sideWait } else none
+  -- … the side websocket arrives: the connection is joined to it, a websocket of its own that
+  -- does not depend on the control connection (outside this model) …
+  | .sideArrive => if f.hs = .sideWait then some { f with hs := .elsewhere } else none
+  -- … or the endpoint's transport ends first (`gone`), or the dialler's context does
+  | .sideGone => if f.hs = .sideWait ∧ F.sideDialSelectsGone ∧ c.trDone then some (hostReturn F f) else none
+  | .sideCancel => if f.hs = .sideWait ∧ c.cancelled then some (hostReturn F f) else none
 
 inductive Ev
   | front (i : Nat) (e : FEv)
@@ -246,7 +261,7 @@ inductive Reach (F : Facts) (s0 : St) : St → Prop
     newer endpoint, a cancellation, clients connecting, sending or hanging up -/
 def Ev.isEnv : Ev → Bool
   | .sever | .kick | .cancel | .hint => true
-  | .front _ .arrive | .front _ .clientData | .front _ .clientClose => true
+  | .front _ .arrive | .front _ .clientData | .front _ .clientClose | .front _ .sideArrive => true
   | _ => false
 
 /-- no goroutine of the system can take a step (the environment still may) -/
